@@ -356,7 +356,12 @@ class IndexArray(Family):
             ctx.prove("post.no rows: empty", z3.And(n == 0, z3.BoolVal(out.size == 0)))
             return
         ctx.prove("post.len==size", dim_term(out.shape_[0]) == size)
-        if not ctx.ghost.get("bincount"):
+        if not ctx.ghost.get("bincount") or not ctx.ghost.get("prefix_sums"):
+            # another construction than bincount + cumsum: the proof script below does not apply; the postcondition is
+            # stated all the same (it will be reported as failed / undecided rather than silently skipped)
+            jj = z3.Int("j")
+            ctx.skolem(z3.And(0 <= jj, jj < size))
+            ctx.prove("post.index_array[j] == row containing j", out.get(jj) == rho(jj), pool=[jj, rho(jj), rho(jj) + 1, n, n - 1])
             return
         bc = ctx.ghost["bincount"][-1]
         cnt, m = bc["cnt"], bc["m"]                     # m = n - 1 entries: x[t] = S(t+1)
